@@ -134,9 +134,10 @@ var checks = []Check{
 	},
 	{
 		ID: "C14", Title: "Running programs stay interruptible and stop cleanly", Level: "model_checking",
-		Units: []Unit{evalUnit([]string{"evaluator/common.go", "evaluator/c14.go"},
+		Units: []Unit{evalUnit([]string{"evaluator/common.go", "evaluator/gen.go", "evaluator/gen2.go", "evaluator/c14.go"},
 			Harness{Fn: "ZZC14Stop", Quick: p("K", 30), Thorough: p("K", 120), Expect: []string{"stopped", "not-stopped", "witness:end"}, MaxInstr: 3_000_000},
 			Harness{Fn: "ZZC14Density", Expect: []string{"density-ok", "witness:end"}},
+			Harness{Fn: "ZZC14Gen", Quick: p("KG", 16, "GD", 1), Thorough: p("KG", 40, "GD", 2), ThoroughBudget: 25 * time.Minute, Expect: []string{"gen-stopped", "gen-finished", "witness:end"}, MaxInstr: 3_000_000},
 			Harness{Fn: "ZZC14Event", Quick: p("KE", 40), Thorough: p("KE", 40), Expect: []string{"ev-stopped", "ev-done", "witness:end"}},
 		)},
 		Assumptions: []string{
